@@ -44,5 +44,7 @@ try:
         shutil.rmtree(alt, ignore_errors=True)
 finally:
     sh('git -C /repo worktree remove --force %s' % wt)
+    # the regenerated models (coq/*/Generated.v) were measured on the patched tree: restore the committed ones
+    sh('cd %s && git checkout -- coq/Dosini/Generated.v coq/Valid/Generated.v coq/Cache/Generated.v' % V)
 json.dump(res, open(os.path.join(sd, 'result.json'), 'w'), indent=1)
 print(json.dumps({k: (v if k != 'checks' else {p: (c['caught'], c['exit']) for p, c in v.items()}) for k, v in res.items()}))
